@@ -243,7 +243,7 @@ def unit_eval_matched(ctx, decision, eval_names):
         r = p.value
         a = r.attrs
         lm = a.get("list_metrics")
-        ok = isinstance(lm, dict) and sorted(k._name for k in lm) == sorted(eval_names) and all(isinstance(v, SymList) for v in lm.values())
+        ok = isinstance(lm, dict) and sorted(k._name for k in lm) == sorted(set(eval_names)) and all(isinstance(v, SymList) for v in lm.values())
         if not ok:
             ctx.oblige(f"{fnm}[{tag}]/post(shape)", p.pc, z3.BoolVal(False), func=QN)
             continue
@@ -348,6 +348,8 @@ def build(ctx):
     for dec in (None, "IOU", "DSC", "ASSD"):
         ctx.unit(f"evaluate_matched_instance[{dec}]", lambda dec=dec: unit_eval_matched(ctx, dec, ["DSC", "IOU", "ASSD"]))
     ctx.unit("evaluate_matched_instance[RVD|all]", lambda: unit_eval_matched(ctx, "IOU", ["DSC", "IOU", "ASSD", "RVD"]))
+    # a metric listed twice in the configuration is still ONE list with exactly tp entries
+    ctx.unit("evaluate_matched_instance[duplicate metric]", lambda: unit_eval_matched(ctx, "IOU", ["DSC", "IOU", "DSC"]))
     ctx.unit("evaluate_matched_instance[frame]", lambda: unit_eval_frame(ctx))
     ctx.unit("MatchedInstancePair.__init__", lambda: unit_matched_pair_ctor(ctx))
     # tp/fp/fn count label-matched instances: "matched" means what the relabelling after matching made equal (C04), regenerated here
